@@ -534,7 +534,7 @@ func (tb *TB) BitOp(op Op, a, b *Term) *Term {
 		width = 32
 	} else {
 		w := mx.BitLen()
-		if w > 32 {
+		if w > 64 {
 			return nil
 		}
 		for int(width) < w {
